@@ -49,6 +49,21 @@ def tojm_cases(rng, n):
     for _ in range(n):
         d = G.rand_doc(rng, rng.choice([1, 2, 3, 4]))
         out.append((rng.choice(["value", "valueref", "rcvar", "rcvarref", "variable", "variableref"]), d))
+    # deep and wide inputs (depth 100 .. 400 — a JSON text parser would stop at 128, a value built in memory need not; arrays / objects /
+    # strings of 255, 256, 257, 1000 elements): a conversion path with its own recursion or size limit differs from the other path here
+    for depth in (100, 127, 128, 129, 130, 200, 400):
+        for wrap in ("[ %s ]", "{ s61 %s }"):
+            d = "u7"
+            for _ in range(depth):
+                d = wrap % d
+            for kind in ("value", "valueref", "rcvar", "rcvarref", "variable", "variableref"):
+                out.append((kind, d))
+    for nel in (255, 256, 257, 1000):
+        for d in ("[ " + " ".join("u%d" % (i % 10) for i in range(nel)) + " ]", "{ " + " ".join(G.enc_str("k%04d" % i) + " u1" for i in range(nel)) + " }",
+                  G.enc_str("x" * nel), G.enc_str("é" * nel)):
+            for kind in ("value", "valueref", "rcvar", "variableref"):
+                out.append((kind, d))
+        out += [("string", ("y" * nel).encode().hex()), ("str", ("é" * nel).encode().hex())]
     return out
 
 
@@ -84,6 +99,15 @@ def run(ctx):
     streams["serde"] = sc
     tj = tojm_cases(rng, 600 if q else 100000)
     streams["tojm"] = [k + "\t" + d for k, d in tj]
+    sized = []
+    for nel in (255, 256, 257, 65535 if not q else 300, 1000):
+        docs = ["[ " + " ".join("u%d" % (i % 10) for i in range(nel)) + " ]", G.enc_str("x" * nel), G.enc_str("é" * nel),
+                "{ " + " ".join(G.enc_str("k%05d" % i) + " u1" for i in range(nel)) + " }"]
+        for d in docs:
+            for e in ("length(@)", "reverse(@) | length(@)", "to_string(@) | length(@)", "keys(@) | length(@)", "[*] | length(@)", "sort(@)[0]",
+                      "@[-1]", "[::2] | length(@)", "values(@) | length(@)", "to_array(@) | length(@)", "join('', @[*].to_string(@)) | length(@)"):
+                sized.append(C.hexs(e) + "\t" + d)
+    streams["eval"] = streams["eval"] + sized
     if getattr(ctx, "replay", None):
         streams = {ctx.replay["stream"]: [ctx.replay["case"]]}
     per_stream = {}
